@@ -35,11 +35,11 @@ ST2 = [
  (["H\tVN:Z:2.0", "S\ta\t10\t*", "S\tb\t10\tACGTACGTAC", "S\tc\t10\t*",
    "E\te1\ta+\tb-\t6\t10$\t6\t10$\t1M1D2M1I", "E\te2\tb-\tc+\t0\t3\t0\t3\t2M1D1I", "E\te3\ta+\tc+\t2\t6\t0\t10$\t*",
    "E\te4\ta-\tc-\t2\t5\t3\t6\t1,2\tTS:i:3", "G\tg1\ta+\tc-\t5\t*", "F\ta\tread+\t0\t4\t0\t4$\t2M1I1M1D",
-   "O\to1\ta+ b- c+", "O\to2\to1- a-", "U\tu1\ta e2 o1 g1", "U\tu2\tu1 c", "X\tcustom\tfield\txx:i:1"], 1),
+   "O\to1\ta+ b- c+", "O\to2\to1- a-", "O\to3\te2- e1-", "U\tu1\ta e2 o1 g1", "U\tu2\tu1 c", "X\tcustom\tfield\txx:i:1"], 1),
  (["S\ta\t10\t*", "S\tb\t10\t*", "E\t*\ta+\tb+\t5\t10$\t0\t5\t3M2I2D", "E\te2\ta+\ta-\t7\t10$\t7\t10$\t2M1I",
    "O\to1\ta+ e2+ a-", "U\t*\ta b", "F\tb\tr-\t1\t3\t0\t2\t*", "G\t*\ta-\tb+\t10\t2"], 3),
  (["S\t1\t8\t*", "S\t2\t8\t*", "S\t3\t8\t*", "E\t10\t1+\t2+\t4\t8$\t0\t4\t1D3M1I", "E\t11\t2+\t3-\t5\t8$\t5\t8$\t3M",
-   "E\t12\t1+\t3+\t0\t8$\t0\t8$\t8M", "O\t20\t1+ 10+ 2+ 11+ 3-", "O\t21\t20-", "U\t30\t20 21 12", "#\tc"], 2),
+   "E\t12\t1+\t3+\t0\t8$\t0\t8$\t8M", "O\t20\t1+ 10+ 2+ 11+ 3-", "O\t21\t20-", "O\t22\t11- 10-", "U\t30\t20 21 12", "#\tc"], 2),
 ]
 
 def _n(v, depth=0):
